@@ -42,6 +42,7 @@ type Registry struct {
 	globOrder []string
 	sliceS    map[Sort]bool
 	axioms    []string
+	symAxioms [][2]string // (symbol, axiom): only added to queries that mention the symbol
 	f64lits   map[string]string
 }
 
@@ -522,7 +523,7 @@ func (r *Registry) ConstArray(idx, elem Sort, zero string) string {
 	name := "zarr_" + sortTag(as) + "_" + hashName(zero)
 	if _, ok := r.globals[name]; !ok {
 		r.Global(name, as)
-		r.axioms = append(r.axioms, fmt.Sprintf("(assert (forall ((zi %s)) (! (= (select %s zi) %s) :pattern ((select %s zi)))))", idx, name, zero, name))
+		r.symAxioms = append(r.symAxioms, [2]string{name, fmt.Sprintf("(assert (forall ((zi %s)) (! (= (select %s zi) %s) :pattern ((select %s zi)))))", idx, name, zero, name)})
 	}
 	return name
 }
